@@ -17,16 +17,16 @@ import (
 
 // TPiece is one traced piece of a textual path.
 type TPiece struct {
-	Kind       byte // 'M' move, 'L' line, 'Q' quad, 'C' cube, 'A' end-point arc, 'E' centre-form arc, 'Z' close (line to start)
-	P0, P3     Pt   // start, end
-	P1, P2     Pt   // control points (Q: P1; C: P1, P2)
-	Rx, Ry     float64
-	Phi        float64 // radians
-	Large      bool
-	Sweep      bool
-	Cx, Cy     float64 // 'E'
-	Th0, Th1   float64 // 'E': parametric angles, radians; Th1 > Th0 = counter-clockwise
-	Sub        int
+	Kind     byte // 'M' move, 'L' line, 'Q' quad, 'C' cube, 'A' end-point arc, 'E' centre-form arc, 'Z' close (line to start)
+	P0, P3   Pt   // start, end
+	P1, P2   Pt   // control points (Q: P1; C: P1, P2)
+	Rx, Ry   float64
+	Phi      float64 // radians
+	Large    bool
+	Sweep    bool
+	Cx, Cy   float64 // 'E'
+	Th0, Th1 float64 // 'E': parametric angles, radians; Th1 > Th0 = counter-clockwise
+	Sub      int
 }
 
 // At evaluates the piece at t in [0,1].
